@@ -781,7 +781,7 @@ def run_config(cfg):
     problem = None
     close = lambda: None
     # watchdog on CPU time (a wall-clock alarm false-alarms when the machine is loaded)
-    limit = C.cpu_time_limit(float(cfg.get("timeout", 60)), exc=RunTimeout)
+    limit = C.cpu_time_limit(float(cfg.get("timeout", 20)), exc=RunTimeout)
     limit.__enter__()
     try:
         try:
